@@ -1029,3 +1029,28 @@ Proof.
       destruct (untar _) as [fs|]; [|discriminate]. destruct (index_ok fs) eqn:IO2; [|discriminate]. inversion Hx; subst. exact IO2.
     + intro H. inversion H; subst. exact IO.
 Qed.
+
+(* end to end whatever the source of the bytes: origin over a local path or http, a whole .apk
+   pre-populated in the cache directory (online or OFFLINE) *)
+Lemma end_to_end_every_source sha1 sha256 b64 first_name ctl_view gunzip untar
+  (cr1 : forall a b, sha1 a = sha1 b -> a = b) (cr256 : forall a b, hex (sha256 a) = hex (sha256 b) -> a = b)
+  http offline whole origin m k h x k' m' lazy out gc cg dh gd :
+  memo_inv sha1 sha256 b64 ctl_view gunzip untar m -> opt_cache_ok sha1 sha256 gunzip untar k ->
+  expand_package sha1 sha256 b64 first_name ctl_view gunzip untar m k h
+    (fetch http (match k with Some _ => true | None => false end) offline whole origin) = (XOk x, k', m') ->
+  install lazy x = Some out ->
+  h_sum b64 h = Some (sha1 gc) -> mk_ctl ctl_view gc = Some cg ->
+  In dh (c_datahash cg) -> dh <> "" -> dh = hex (sha256 gd) ->
+  (x_ctl x = cg /\ x_ctl_file x = gc /\ d_raw (x_dat x) = gd) /\
+  Installed_hashed sha1 x out /\
+  (exists fs, dat_view gunzip untar gd = Some fs /\ d_files (x_dat x) = fs /\ install_files lazy [] (data_section fs) = Some out).
+Proof.
+  intros MI Ok EP Inst Hs M Hin NE Hd.
+  destruct (end_to_end sha1 sha256 b64 first_name ctl_view gunzip untar cr1 cr256 _ _ _ _ _ _ _ _ _ _ _ _ _ MI Ok EP Inst Hs M Hin NE Hd)
+    as (A & (fs & Dv & Ef & Fok & Ins & _) & _).
+  split; [exact A|]. split.
+  - intros n b Hb. destruct (installed_bytes lazy x out n b Inst Hb) as (f & If & _ & [[K B]|[_ (g & Ig & Kg & Bg)]]).
+    + exists f. pose proof (data_section_incl _ _ If) as I. split; [exact I|]. split; [exact K|]. split; [exact B|]. apply Fok. rewrite <- Ef. exact I.
+    + exists g. pose proof (data_section_incl _ _ Ig) as I. split; [exact I|]. split; [exact Kg|]. split; [exact Bg|]. apply Fok. rewrite <- Ef. exact I.
+  - exists fs. auto.
+Qed.
